@@ -1,7 +1,7 @@
 (* TracerFacts4.v — facts about TracerReindex.v: what reindex() and copy() do to the Trace objects. *)
 From Coq Require Import ZArith List Bool Lia.
 Import ListNotations.
-Require Import PyBase Tracer TracerNames TracerReindex.
+Require Import PyBase Solver Tracer TracerNames TracerReindex.
 
 Section ReindexFacts.
   Variable num : Type.
@@ -142,5 +142,96 @@ Section ReindexFacts.
       destruct IH as (I1 & I2 & I3 & I4).
       split; [cbn [length]; rewrite I1; reflexivity|]. split; [exact I2|]. split; [exact I3|].
       intros [|i]; cbn [nth]; [reflexivity|exact (I4 i)].
+  Qed.
+  (* ---- the link between the reference level and the value level ---- *)
+  Lemma trace_t_is_core cfg t lab a reset (v : vals num) (tr : traces num) res p :
+    gather num v t (names_of cfg (length v) a) = inl res -> py_pos (length tr) t = Some p ->
+    trace_t num cfg t lab a reset v tr = trace_t_core num (names_of cfg (length v) a) reset p lab res tr.
+  Proof. intros Hg Hp. unfold trace_t, TracerReindex.trace_t_core. rewrite Hg, Hp. reflexivity. Qed.
+
+  Lemma view_nth cells h i :
+    nth i (view num cells h) (empty_trace num) = match nth i cells None with Some r => tderef h r | None => empty_trace num end.
+  Proof.
+    unfold TracerReindex.view.
+    exact (map_nth (fun c : tcell => match c with Some r => tderef h r | None => empty_trace num end) cells None i).
+  Qed.
+
+  Lemma nth_upd_case {A} i p (x d : A) l :
+    nth i (upd p x l) d = if Nat.eqb i p && Nat.ltb p (length l) then x else nth i l d.
+  Proof.
+    destruct (Nat.eqb i p) eqn:E; cbn [andb].
+    - apply Nat.eqb_eq in E. subst i. destruct (Nat.ltb p (length l)) eqn:L.
+      + apply Nat.ltb_lt in L. apply nth_upd_eq. exact L.
+      + apply Nat.ltb_ge in L. rewrite !nth_overflow; [reflexivity|exact L|rewrite upd_length; exact L].
+    - apply Nat.eqb_neq in E. apply nth_upd_neq. congruence.
+  Qed.
+
+  (* When EVERY cell holds a Trace object of its own (no None, no two periods sharing an object) the reference-level
+     trace_t_cells, seen at the level of values, IS Tracer.trace_t: this is the standing assumption of every theorem that
+     speaks about `traces`.  (It holds after __init__, copy() and reindex() for the kept periods, and is preserved: the
+     new array again has a Trace in every cell, each its own.) *)
+  Theorem cells_refine_traces names reset p lab res cells h :
+    (forall i, (i < length cells)%nat -> exists r, nth i cells None = Some r /\ (r < length h)%nat) ->
+    (forall i j r, nth i cells None = Some r -> nth j cells None = Some r -> i = j) ->
+    (p < length cells)%nat ->
+    let '((cells', h'), e) := trace_t_cells names reset p lab res cells h in
+    (view num cells' h', e) = trace_t_core num names reset p lab res (view num cells h)
+    /\ (forall i, (i < length cells')%nat -> exists r, nth i cells' None = Some r /\ (r < length h')%nat)
+    /\ (forall i j r, nth i cells' None = Some r -> nth j cells' None = Some r -> i = j)
+    /\ length cells' = length cells.
+  Proof.
+    intros Hall Hinj Hp. destruct (Hall p Hp) as (r & Hr & Hrl).
+    unfold TracerReindex.trace_t_cells, TracerReindex.trace_t_core. unfold tcell, addr in *. rewrite Hr.
+    rewrite view_nth. unfold tcell, addr in *. rewrite Hr.
+    destruct (is_empty num (tderef h r) || reset) eqn:Enew.
+    - destruct (append_trace num (mkTrace names [] []) lab res) as [new e].
+      assert (Hlen : length (view num (upd p (Some (length h)) cells) (h ++ [new])) = length (upd p new (view num cells h))).
+      { unfold TracerReindex.view. rewrite map_length, !upd_length, map_length. reflexivity. }
+      split; [f_equal|].
+      + apply (nth_ext _ _ (empty_trace num) (empty_trace num) Hlen). intros i Hi.
+        assert (Hpl : Nat.ltb p (length cells) = true) by (apply Nat.ltb_lt; exact Hp).
+        rewrite view_nth, !nth_upd_case, view_nth.
+        unfold TracerReindex.view. rewrite map_length. unfold tcell, addr in *. rewrite !Hpl, !andb_true_r.
+        destruct (Nat.eqb i p) eqn:E.
+        * unfold TracerReindex.tderef. rewrite app_nth2 by lia. rewrite Nat.sub_diag. reflexivity.
+        * assert (Hi' : (i < length cells)%nat).
+          { unfold TracerReindex.view in Hi. rewrite map_length, upd_length in Hi. exact Hi. }
+          destruct (Hall i Hi') as (ri & Hri & Hril). unfold tcell, addr in *. rewrite Hri.
+          unfold TracerReindex.tderef. apply app_nth1. exact Hril.
+      + split; [|split].
+        * intros i Hi. rewrite upd_length in Hi. rewrite nth_upd_case. rewrite app_length. cbn [length].
+          destruct (Nat.eqb i p && Nat.ltb p (length cells)); [exists (length h); split; [reflexivity|lia]|].
+          destruct (Hall i Hi) as (ri & Hri & Hril). exists ri. split; [exact Hri|lia].
+        * intros i j r0. rewrite !nth_upd_case.
+          assert (Hpl : Nat.ltb p (length cells) = true) by (apply Nat.ltb_lt; exact Hp). rewrite Hpl, !andb_true_r.
+          destruct (Nat.eqb i p) eqn:Ei; destruct (Nat.eqb j p) eqn:Ej.
+          -- intros _ _. apply Nat.eqb_eq in Ei, Ej. congruence.
+          -- intros Q1 Q2. inversion Q1; subst r0. exfalso.
+             destruct (Nat.lt_ge_cases j (length cells)) as [Hj|Hj].
+             ++ destruct (Hall j Hj) as (rj & Hrj & Hrjl). unfold tcell, addr in *. rewrite Hrj in Q2. inversion Q2. lia.
+             ++ rewrite nth_overflow in Q2 by exact Hj. discriminate Q2.
+          -- intros Q1 Q2. inversion Q2; subst r0. exfalso.
+             destruct (Nat.lt_ge_cases i (length cells)) as [Hi|Hi].
+             ++ destruct (Hall i Hi) as (ri & Hri & Hril). unfold tcell, addr in *. rewrite Hri in Q1. inversion Q1. lia.
+             ++ rewrite nth_overflow in Q1 by exact Hi. discriminate Q1.
+          -- apply Hinj.
+        * apply upd_length.
+    - destruct (append_trace num (tderef h r) lab res) as [new e].
+      assert (Hlen : length (view num cells (upd r new h)) = length (upd p new (view num cells h))).
+      { unfold TracerReindex.view. rewrite upd_length, !map_length. reflexivity. }
+      split; [f_equal|].
+      + apply (nth_ext _ _ (empty_trace num) (empty_trace num) Hlen). intros i Hi.
+        rewrite view_nth, nth_upd_case, view_nth. unfold TracerReindex.view. rewrite map_length.
+        assert (Hi' : (i < length cells)%nat) by (unfold TracerReindex.view in Hi; rewrite map_length in Hi; exact Hi).
+        destruct (Hall i Hi') as (ri & Hri & Hril). unfold tcell, addr in *. rewrite Hri.
+        assert (Hpl : Nat.ltb p (length cells) = true) by (apply Nat.ltb_lt; exact Hp). rewrite Hpl, andb_true_r.
+        unfold TracerReindex.tderef. rewrite nth_upd_case.
+        assert (Hrl' : Nat.ltb r (length h) = true) by (apply Nat.ltb_lt; exact Hrl). rewrite Hrl', andb_true_r.
+        destruct (Nat.eqb i p) eqn:Ei.
+        * apply Nat.eqb_eq in Ei. subst i. rewrite Hr in Hri. inversion Hri; subst ri. rewrite Nat.eqb_refl. reflexivity.
+        * destruct (Nat.eqb ri r) eqn:Er; [|reflexivity].
+          apply Nat.eqb_eq in Er. subst ri. apply Nat.eqb_neq in Ei. exfalso. apply Ei. exact (Hinj i p r Hri Hr).
+      + split; [|split; [exact Hinj|reflexivity]].
+        intros i Hi. destruct (Hall i Hi) as (ri & Hri & Hril). exists ri. split; [exact Hri|rewrite upd_length; exact Hril].
   Qed.
 End ReindexFacts.
